@@ -82,6 +82,15 @@ class _Vec:
         self.comps, self.cross_of = list(comps), cross_of
 
 
+class _Prod:
+    """the unevaluated product object `self` of a differentiation hook: cls(args...)"""
+
+    def __init__(self, cls: str, args: list):
+        self.cls, self.args = cls, list(args)
+
+
+SYMPY_DEFAULT = ("sympy-default-derivative", )  # super()._eval_derivative_n_times: SymPy applies _eval_derivative n times (R3's business)
+
 from ..pyreader import PyReader, Raised  # noqa: E402
 
 
@@ -89,6 +98,7 @@ class _VecPy(PyReader):
     log_hooks = False  # True: operand hooks are logged and answer "no rewrite" (R2/R4); False: they are evaluated (R1)
     hook_log: list = []
     ordered = None  # what the stand-in for _ordered_mul answers: {sign: {(sorted vectors): factor}}
+    stub_is_vector_expr = False
     shared_ordered = False
 
     def is_instance(self, v, names, n):
@@ -101,6 +111,10 @@ class _VecPy(PyReader):
             if v.cross_of is not None and "VectorExpr" in names:
                 return True
             return False
+        if isinstance(v, _Prod):
+            return bool(set(names) & {v.cls, "Expr", "Basic"} | ({"VectorExpr"} & set(names) if v.cls == "VectorCross" else set()))
+        if isinstance(v, int) and not isinstance(v, bool):
+            return bool(set(names) & {"int", "Integer", "SupportsInt"})
         if isinstance(v, (T, int)):
             return False
         self.fail(n, "isinstance outside the modelled classes")
@@ -108,15 +122,62 @@ class _VecPy(PyReader):
     def hook_method(self, base, attr, args, kwargs, n):
         if isinstance(base, _Vec) and attr == "doit":
             return base
+        if isinstance(base, _Vec) and attr == "diff" and 1 <= len(args) <= 2 and isinstance(args[0], T) and args[0].op == "var" and not kwargs:
+            k = args[1] if len(args) == 2 else 1
+            if isinstance(k, T) and k.op == "num" and k.val.denominator == 1:
+                k = int(k.val)
+            if not (isinstance(k, int) and not isinstance(k, bool) and k >= 0):
+                self.fail(n, "derivative of symbolic order")
+            comps = list(base.comps)
+            for _ in range(k):
+                comps = [op("diff", x, args[0]) for x in comps]
+            return _Vec(comps)
+        if isinstance(base, _Prod) and attr == "func" and not kwargs:
+            return self.make_product(base.cls, list(args), n)
+        if isinstance(base, tuple) and base == ("super", ) and attr in ("_eval_derivative_n_times", ):
+            return SYMPY_DEFAULT
         if isinstance(base, _Vec) and attr in ("_eval_vector_dot", "_eval_vector_cross") and self.log_hooks:
             self.hook_log.append((base, attr, list(args)))
             return None  # no rewrite here: what the hooks of VectorCross answer is rule R1's business, which operands they are given is R4's
         return NotImplemented
 
 
+    def make_product(self, name: str, vals: list, n):
+        if not all(isinstance(v, _Vec) for v in vals):
+            self.fail(n, "product of non-vectors")
+        cs = [v.comps for v in vals]
+        if name == "VectorDot" and len(cs) == 2:
+            return t_dot(*cs)
+        if name == "VectorCross" and len(cs) == 2:
+            return _Vec(t_cross(*cs), cross_of=(vals[0], vals[1]))
+        if name == "VectorMixedProduct" and len(cs) == 3:
+            return t_mixed(*cs)
+        if name == "VectorNorm" and len(cs) == 1:
+            return t_norm(cs[0])
+        self.fail(n, "arity")
+
     def hook_attr(self, base, attr, n):
         if isinstance(base, _Vec) and attr == "args" and base.cross_of is not None:
             return list(base.cross_of)
+        if isinstance(base, _Prod):
+            if attr == "args":
+                return list(base.args)
+            if attr == "func":
+                return ("class", base.cls)
+            if attr in ("lhs", "rhs") and len(base.args) == 2:
+                return base.args[0 if attr == "lhs" else 1]
+        return NotImplemented
+
+    def hook_compare(self, o, l, r, n):
+        # vector == 0 / vector != 0: the zero vector is the vector whose components all vanish identically
+        if isinstance(o, (ast.Eq, ast.NotEq)) and (isinstance(l, _Vec) or isinstance(r, _Vec)):
+            v_, z_ = (l, r) if isinstance(l, _Vec) else (r, l)
+            if (isinstance(z_, int) and not isinstance(z_, bool) and z_ == 0) or (isinstance(z_, T) and z_.op == "num" and z_.val == 0):
+                res = all(normalize(x).is_zero() for x in v_.comps)
+                return res if isinstance(o, ast.Eq) else not res
+        if isinstance(o, (ast.Eq, ast.NotEq)) and isinstance(l, T) and (isinstance(r, int) and not isinstance(r, bool) and r == 0 or isinstance(r, T) and r.op == "num" and r.val == 0):
+            res = normalize(l).is_zero()
+            return res if isinstance(o, ast.Eq) else not res
         return NotImplemented
 
     def hook_unary(self, o, v, n):
@@ -150,6 +211,16 @@ class _VecPy(PyReader):
             return self.is_instance(self.ev(n.args[0], env, fns), self.class_names(n.args[1]), n)
         if name == "_check_vector" and len(n.args) == 1:
             return self.ev(n.args[0], env, fns)
+        if name == "super" and not n.args:
+            return ("super", )
+        if name == "is_vector_expr" and len(n.args) == 1 and self.stub_is_vector_expr:
+            return isinstance(self.ev(n.args[0], env, fns), _Vec)
+        if name == "binomial" and len(n.args) == 2 and name not in self.functions:
+            a_, b_ = self.ev(n.args[0], env, fns), self.ev(n.args[1], env, fns)
+            if isinstance(a_, int) and isinstance(b_, int) and 0 <= b_ <= a_:
+                import math
+                return math.comb(a_, b_)
+            self.fail(n, "binomial of non-concrete arguments")
         if name == "_ordered_mul" and self.ordered is not None:
             for a in n.args:
                 self.ev(a, env, fns)
@@ -167,18 +238,7 @@ class _VecPy(PyReader):
                     vals += list(self.ev(a.value, env, fns))
                 else:
                     vals.append(self.ev(a, env, fns))
-            if not all(isinstance(v, _Vec) for v in vals):
-                self.fail(n, "product of non-vectors")
-            cs = [v.comps for v in vals]
-            if name == "VectorDot" and len(cs) == 2:
-                return t_dot(*cs)
-            if name == "VectorCross" and len(cs) == 2:
-                return _Vec(t_cross(*cs), cross_of=(vals[0], vals[1]))
-            if name == "VectorMixedProduct" and len(cs) == 3:
-                return t_mixed(*cs)
-            if name == "VectorNorm" and len(cs) == 1:
-                return t_norm(cs[0])
-            self.fail(n, "arity")
+            return self.make_product(name, vals, n)
         return NotImplemented
 
 
@@ -388,8 +448,9 @@ def _r2_sort(run: Run) -> None:
         return sign, sorted(seq, key=(lambda x: -x) if neg else None)
 
     bad = None
-    for ln in range(4):
-        for seq in itertools.product(range(3), repeat=ln):
+    deep = run.tier == "thorough"  # thorough: every order pattern of up to four operands
+    for ln in range(5 if deep else 4):
+        for seq in itertools.product(range(4 if deep else 3), repeat=ln):
             for neg in (False, True):
                 run.ob("R2", f"sort_with_sign:{list(seq)}{':key' if neg else ''}", nontrivial=False)
                 rd = R(m.tree, "miscellaneous.py")
@@ -511,6 +572,51 @@ def _r3(run: Run, mod) -> None:
         run.violate("R3", f"{MOD}:VectorNorm._eval_derivative", mod, fn, "the derivative of norm(v) is not dot(v, dv) / norm(v)")
 
 
+def _r3_n_times(run: Run, mod) -> set:
+    """`_eval_derivative_n_times` of the binary products, where defined, EVALUATED for orders 2 and 3 on generic, constant and linear vector functions of the
+    parameter: the answer is the n-th formal derivative of the product (or SymPy's default, n applications of _eval_derivative). Returns the classes decided."""
+    decided = set()
+    t = var("t")
+    for cname, product in (("VectorDot", t_dot), ("VectorCross", t_cross)):
+        c = _cls(mod, cname)
+        fn = next((f_ for f_ in c.body if isinstance(f_, ast.FunctionDef) and f_.name == "_eval_derivative_n_times"), None)
+        if fn is None:
+            continue
+        methods = ast.Module(body=[x for x in mod.tree.body if not isinstance(x, ast.ClassDef)] + [x for x in c.body if isinstance(x, ast.FunctionDef)], type_ignores=[])
+        kinds = {
+            "generic": lambda nm: gvec(nm, ("t", )),
+            "constant": lambda nm: gvec(nm),
+            "linear": lambda nm: [op("add", op("mul", var(f"{nm}a{i}"), t), var(f"{nm}b{i}")) for i in range(3)],
+        }
+        bad = None
+        for order in (2, 3):
+            for lk, rk in itertools.product(kinds, repeat=2):
+                L, R = _Vec(kinds[lk]("L")), _Vec(kinds[rk]("R"))
+                rd = _VecPy(methods, f"{cname}._eval_derivative_n_times[{lk},{rk},n={order}]", depth_limit=8)
+                rd.stub_is_vector_expr = True
+                run.ob("R3", f"{cname}._eval_derivative_n_times:{lk}x{rk}:n={order}")
+                try:
+                    got = rd.call("_eval_derivative_n_times", [_Prod(cname, [L, R]), t, order])
+                except Raised as r_:
+                    bad = bad or (lk, rk, order, f"raises {r_.exc}")
+                    continue
+                if got == SYMPY_DEFAULT:
+                    continue
+                want = product(L.comps, R.comps)
+                for _ in range(order):
+                    want = [op("diff", x, t) for x in want] if isinstance(want, list) else op("diff", want, t)
+                gotv = got.comps if isinstance(got, _Vec) else got
+                if gotv is None or isinstance(gotv, tuple) or not _eq(gotv if not isinstance(gotv, int) else num(gotv), want):
+                    bad = bad or (lk, rk, order, f"gives {_show(gotv) if isinstance(gotv, (list, T)) else gotv!r}, the derivative is {_show(want)}")
+        if bad:
+            lk, rk, order, what = bad
+            run.violate("R3", f"{MOD}:{cname}._eval_derivative_n_times", mod, fn,
+                        f"the order-{order} derivative hook of {cname} for a {lk} left and a {rk} right operand {what[:300]}: not the n-th derivative of the product "
+                        f"(general Leibniz rule: every k = 0..n contributes)")
+        decided.add(cname)
+    return decided
+
+
 HOOKS = ("_eval_vector_dot", "_eval_vector_cross")
 
 
@@ -573,7 +679,7 @@ def _operand_worlds(fn: ast.FunctionDef, seed_worlds: list) -> list:
     return out
 
 
-def _r5_termination(run: Run, mod) -> None:
+def _r5_termination(run: Run, mod, n_times_decided=frozenset()) -> None:
     """differentiation and re-evaluation are well-founded"""
     classes = {c.name: c for c in mod.tree.body if isinstance(c, ast.ClassDef)}
     # ---- (a) every irreducible vector class is atomic for the products
@@ -678,7 +784,8 @@ def _r5_termination(run: Run, mod) -> None:
     # differentiation enters these classes only through _eval_derivative (decided by R3/R5); any other SymPy differentiation hook would bypass both rules
     OTHER_HOOKS = ("_eval_derivative_n_times", "fdiff", "diff", "_eval_diff", "_eval_derivative_matrix_lines")
     for c in classes.values():
-        extra = [f_.name for f_ in c.body if isinstance(f_, ast.FunctionDef) and f_.name in OTHER_HOOKS]
+        extra = [f_.name for f_ in c.body if isinstance(f_, ast.FunctionDef) and f_.name in OTHER_HOOKS
+                 and not (f_.name == "_eval_derivative_n_times" and c.name in n_times_decided)]
         if extra and c.name != "VectorDerivative":
             raise AnalysisError(f"C14: {c.name} defines the differentiation hook(s) {extra}, which this check does not decide (only _eval_derivative is evaluated): "
                                 f"no verdict on the derivative clause")
@@ -694,7 +801,8 @@ def check(run: Run) -> None:
     _r2_key(run, mod)
     _r2_products(run, mod)
     _r3(run, mod)
+    n_times = _r3_n_times(run, mod)
     run.rule("R4", "operand hooks (_eval_vector_dot/_eval_vector_cross) are always called with (left operand, right operand) of the product being evaluated")
     run.rule("R5", "termination: every irreducible vector class is atomic for the products (or supplies operand hooks), and each _eval_derivative "
              "differentiates strict sub-expressions only - never itself, nor a freshly built product whose evaluation can return the same class")
-    _r5_termination(run, mod)
+    _r5_termination(run, mod, n_times)
